@@ -400,6 +400,19 @@ func (e *Engine) parseContracts() {
 		c.E = ex
 		return c
 	}
+	// clauses that are conjunctions become one clause per conjunct (smaller queries)
+	mkClauses := func(l rawLine, rest string, defName string) []*Clause {
+		c := mkClause(l, rest, defName)
+		parts := splitConj(c.E)
+		if len(parts) <= 1 {
+			return []*Clause{c}
+		}
+		var out []*Clause
+		for i, p := range parts {
+			out = append(out, &Clause{Name: fmt.Sprintf("%s.%d", c.Name, i+1), Src: p.String(), E: p, Pos: c.Pos, Except: c.Except})
+		}
+		return out
+	}
 	for _, l := range joined {
 		if l.text == "" {
 			continue
@@ -439,7 +452,7 @@ func (e *Engine) parseContracts() {
 				perr(l, "requires outside a contract")
 				continue
 			}
-			cur.Requires = append(cur.Requires, mkClause(l, rest, fmt.Sprintf("req%d", len(cur.Requires))))
+			cur.Requires = append(cur.Requires, mkClauses(l, rest, fmt.Sprintf("req%d", len(cur.Requires)))...)
 		case "assume":
 			if cur == nil {
 				perr(l, "assume outside a contract")
@@ -451,7 +464,7 @@ func (e *Engine) parseContracts() {
 				perr(l, "ensures outside a contract")
 				continue
 			}
-			cur.Ensures = append(cur.Ensures, mkClause(l, rest, fmt.Sprintf("ens%d", len(cur.Ensures))))
+			cur.Ensures = append(cur.Ensures, mkClauses(l, rest, fmt.Sprintf("ens%d", len(cur.Ensures)))...)
 		case "modifies":
 			if cur == nil {
 				perr(l, "modifies outside a contract")
@@ -473,7 +486,7 @@ func (e *Engine) parseContracts() {
 				continue
 			}
 			i := strings.Index(rest, "invariant")
-			cur.LoopInv[ord] = append(cur.LoopInv[ord], mkClause(l, strings.TrimSpace(rest[i+len("invariant"):]), fmt.Sprintf("inv%d", len(cur.LoopInv[ord]))))
+			cur.LoopInv[ord] = append(cur.LoopInv[ord], mkClauses(l, strings.TrimSpace(rest[i+len("invariant"):]), fmt.Sprintf("inv%d", len(cur.LoopInv[ord])))...)
 		case "flag":
 			if cur != nil {
 				for _, f := range strings.Fields(rest) {
@@ -733,4 +746,39 @@ func sortedFuncs(m map[string]*ssa.Function) []*ssa.Function {
 		out = append(out, m[k])
 	}
 	return out
+}
+
+// splitConj distributes a clause over its top-level conjunctions:
+// A && B, P ==> (A && B) and forall x :: (A && B) each become two clauses.
+func splitConj(e SExpr) []SExpr {
+	switch n := e.(type) {
+	case *sParen:
+		return splitConj(n.SExpr)
+	case *SBinary:
+		if n.Op == "&&" {
+			return append(splitConj(n.X), splitConj(n.Y)...)
+		}
+		if n.Op == "==>" {
+			rs := splitConj(n.Y)
+			if len(rs) > 1 {
+				var out []SExpr
+				for _, r := range rs {
+					out = append(out, &SBinary{"==>", n.X, r})
+				}
+				return out
+			}
+		}
+	case *SQuant:
+		if n.Forall {
+			rs := splitConj(n.Body)
+			if len(rs) > 1 {
+				var out []SExpr
+				for _, r := range rs {
+					out = append(out, &SQuant{Forall: true, Vars: n.Vars, Body: r})
+				}
+				return out
+			}
+		}
+	}
+	return []SExpr{e}
 }
